@@ -13,7 +13,7 @@
                  'the typed byte is not NUL and the line holds no NUL (the history stores C strings; NUL is not a key of the statement; proved preserved at the ghost index)',
                  'cap * history_size <= UINT_MAX (readline_history_init and readline_history_pointer compute it in unsigned int), cap <= INT_MAX',
                  'stream-level conclusion by simulation induction over the byte stream on top of this one-step lemma (not machine-checked)'],
- 'params': {'CASE': [10]},
+ 'params': {'CASE': [0, 1, 2, 3, 4, 5, 6, 7, 8, 9, 10], 'HD': [3]},
  'timeout': 300, 'object_bits': 10,
  'witness': {'unwind': 10},
 } @*/
@@ -30,7 +30,8 @@ void harness(void)
 {
     struct readline rl;
     WIT(uint, cap); WIT(uint, len); WIT(uint, cursor); WIT(uint8_t, state); WIT(char, last); WIT(char, c);
-    WIT(uint8_t, has_hist); WIT(uint8_t, H); WIT(uint8_t, head); WIT(uint8_t, browse);
+    WIT(uint8_t, has_hist); uint8_t H = HD; /* history depth: case split over constants (params) */
+    WIT(uint8_t, head); WIT(uint8_t, browse);
     WIT(uint8_t, j); WIT(uint, Lj); WIT(uint, Lq); WIT(int, lastsize);
     WIT(size_t, k);
     WIT_ARR(char, content, 6);
